@@ -23,6 +23,13 @@ import (
 // identity. Such a request must get a basic reply; one naming the sender's own
 // latest exchange normally gets an interleaved one (counted, not required: a
 // missing kernel transmit timestamp legitimately drops the record).
+type c06Exchange struct {
+	rx       ntp.Time64
+	kernelTx ntp.Time64
+	fault    string // "", "missing", "late"
+	twin     bool   // one of two requests that reached the listeners at the same instant
+}
+
 func c06IdentityWorld(r *simcore.Run) any {
 	tp := r.Tape
 	overSCION := tp.Bool(1, 2, "scion")
@@ -33,6 +40,9 @@ func c06IdentityWorld(r *simcore.Run) any {
 		// last reply this identity received
 		lastRx ntp.Time64
 		has    bool
+		// its recent exchanges as seen on the wire: the receive timestamp the server reported,
+		// and the kernel transmit timestamp of that reply (what the record must hold)
+		ex []c06Exchange
 	}
 	var net *simnet.Net
 	var srvHost *simnet.Host
@@ -40,6 +50,13 @@ func c06IdentityWorld(r *simcore.Run) any {
 	var spawn func(string, func())
 	var ids []*ident
 	var send func(id *ident, payload []byte) *simnet.Datagram
+	sameInstant := false
+	lat := func() time.Duration {
+		if sameInstant {
+			return 100 * time.Microsecond
+		}
+		return time.Duration(20+tp.Intn(200, "lat")) * time.Microsecond
+	}
 	if overSCION {
 		scDrawFamily(r)
 		w := newSCIONWorld(r, time.Duration(tp.Range(0, int64(time.Hour), "srvoff")), 1)
@@ -63,7 +80,7 @@ func c06IdentityWorld(r *simcore.Run) any {
 			}
 			raw := buildSCION(ia, scSrvIA, id.host, scSrvIP, id.port, scSvcPort, segs, 0, payload)
 			d := net.NewDatagram(rtr, netip.AddrPortFrom(netip.MustParseAddr(scSrvIP), scSvcPort), raw, "scripted client "+id.ia+","+id.host)
-			net.Inject(d, time.Duration(20+tp.Intn(200, "lat"))*time.Microsecond)
+			net.Inject(d, lat())
 			return d
 		}
 	} else {
@@ -74,13 +91,14 @@ func c06IdentityWorld(r *simcore.Run) any {
 		ids = []*ident{{host: ipCliIP, port: 41001}, {host: ipAtkIP, port: 41001}}
 		send = func(id *ident, payload []byte) *simnet.Datagram {
 			d := net.NewDatagram(netip.AddrPortFrom(netip.MustParseAddr(id.host), id.port), netip.AddrPortFrom(netip.MustParseAddr(ipSrvIP), ipPort), payload, "scripted client "+id.host)
-			net.Inject(d, time.Duration(20+tp.Intn(200, "lat"))*time.Microsecond)
+			net.Inject(d, lat())
 			return d
 		}
 	}
 	if tp.Bool(1, 3, "txfaults") {
 		srvPlan := net.Plan
-		srvPlan.TxStampMissing = uint64(tp.Intn(200, "txmiss"))
+		srvPlan.TxStampMissing = uint64(tp.Intn(300, "txmiss"))
+		srvPlan.TxStampLate = uint64(tp.Intn(100, "txlate"))
 		net.PlanFor = func(d *simnet.Datagram, at *simnet.UDPConn) *simnet.FaultPlan {
 			if at != nil && at.Host() == srvHost {
 				return &srvPlan
@@ -118,13 +136,20 @@ func c06IdentityWorld(r *simcore.Run) any {
 			req.TransmitTime = ntp.Time64FromTime(now.Add(time.Duration(k+1) * time.Nanosecond))
 			kind := "basic"
 			var victim *ident
-			switch tp.Intn(3, "kind") {
-			case 1: // interleaved form naming the sender's own latest exchange
+			var named *c06Exchange
+			switch tp.Intn(4, "kind") {
+			case 1: // interleaved form naming one of the sender's own latest exchanges
 				if x.has {
 					kind = "own"
-					req.OriginTime = x.lastRx
+					named = &x.ex[len(x.ex)-1]
+					if len(x.ex) > 1 && tp.Bool(1, 3, "one-before") {
+						named = &x.ex[len(x.ex)-2]
+					}
+					req.OriginTime = named.rx
 					req.ReceiveTime = ntp.Time64FromTime(now.Add(-time.Millisecond))
 				}
+			case 3: // two basic requests that reach the listeners at the same instant
+				kind = "twin"
 			case 2: // interleaved form naming an exchange of another identity
 				var cands []*ident
 				for _, y := range ids {
@@ -141,9 +166,30 @@ func c06IdentityWorld(r *simcore.Run) any {
 			}
 			var b []byte
 			ntp.EncodePacket(&b, &req)
+			var d2 *simnet.Datagram
+			if kind == "twin" {
+				sameInstant = true
+				req2 := req
+				req2.TransmitTime.Fraction += 7
+				var b2 []byte
+				ntp.EncodePacket(&b2, &req2)
+				d2 = send(x, b2)
+			}
 			d := send(x, b)
+			sameInstant = false
 			if r.Sleep(fmt.Sprintf("settle:%d", k), cliNode, 5*time.Millisecond).Killed {
 				return
+			}
+			if d2 != nil {
+				rs2 := replies[d2.ID]
+				if len(rs2) != 1 {
+					r.Fail("C06", "listener/replies", "step %d (twin request of %s,%s): %d replies", k, x.ia, x.host, len(rs2))
+					return
+				}
+				if rp2, ok := decodeNTP(ntpOf(rs2[0])); ok {
+					x.ex = append(x.ex, c06Exchange{rx: rp2.ReceiveTime, kernelTx: ntp.Time64FromTime(rs2[0].TxStamp), fault: rs2[0].TxStampFault, twin: true})
+					r.Probe("same-instant-requests")
+				}
 			}
 			rs := replies[d.ID]
 			if len(rs) != 1 {
@@ -179,11 +225,43 @@ func c06IdentityWorld(r *simcore.Run) any {
 				own++
 				if interleaved {
 					r.Probe("own-exchange-served-interleaved")
+					// what is served is the pair on record: that exchange's receive timestamp with the
+					// kernel transmit timestamp of that exchange's reply, or nothing
+					// (a receive timestamp may name more than one exchange of this client: when the
+					// first one's record was dropped, a request stamped with the same instant gets the
+					// same timestamp again - the one on record is the one that may be served)
+					var sameRx []c06Exchange
+					for _, e := range x.ex {
+						if e.rx == named.rx {
+							sameRx = append(sameRx, e)
+						}
+					}
+					matches, late, readable := false, false, false
+					for _, e := range sameRx {
+						matches = matches || (e.fault == "" && e.kernelTx == rp.TransmitTime)
+						late = late || e.fault == "late"
+						readable = readable || e.fault == ""
+					}
+					switch {
+					case matches:
+						r.Probe("served-pair-is-kernel-pair")
+					case late:
+						r.Probe("served-after-late-kernel-timestamp")
+					case !readable:
+						r.Fail("C06", "listener/served-without-kernel-timestamp", "%s: the reply to the exchange named (receive timestamp %s) left without a readable kernel transmit timestamp, yet the exchange was served in interleaved mode (transmit %s)",
+							line, t64s(named.rx), t64s(rp.TransmitTime))
+						return
+					default:
+						r.Fail("C06", "listener/pair", "%s: served transmit timestamp %s, the kernel transmit timestamp of that exchange's reply was %s (same-instant twin: %v)",
+							line, t64s(rp.TransmitTime), t64s(named.kernelTx), named.twin)
+						return
+					}
 				} else {
 					r.Probe("own-exchange-served-basic")
 				}
 			}
 			x.lastRx, x.has = rp.ReceiveTime, true
+			x.ex = append(x.ex, c06Exchange{rx: rp.ReceiveTime, kernelTx: ntp.Time64FromTime(rs[0].TxStamp), fault: rs[0].TxStampFault, twin: kind == "twin"})
 		}
 	})
 	reason := r.Loop(2_000_000, 0)
